@@ -10,7 +10,8 @@ if [[ "$PATCH" == *@* ]]; then
   sed -i "$EXPR" "$D/$FILE"
   (cd "$D" && diff -u /repo/$FILE $FILE | head -20) || true
 else
-  (cd "$D" && patch -p1 -s < "$PATCH")
+  case "$PATCH" in /*) ;; *) PATCH="$(pwd)/$PATCH";; esac
+  (cd "$D" && patch -p1 -s < "$PATCH") || { echo "patch failed"; exit 3; }
 fi
 VERIF_REPO="$D" /verif/bin/check "$@" | tail -4
 echo "exit=${PIPESTATUS[0]}"
